@@ -32,6 +32,12 @@ C16_Items == {It(k, d, "none", 0, FALSE, 0, doc) : k \in {"def", "adef", "class"
              \cup {It("def", 1, deco, 0, FALSE, 0, Free1) : deco \in {"property", "setter", "static", "classm"}}
              \cup {It(k, d, deco, 0, FALSE, 0, Free1) : k \in {"def", "adef"}, d \in 0..1, deco \in {"plain", "wraps"}}
 
+\* a core alphabet for longer modules (4 items)
+C16_Core == {It(k, d, "none", 0, FALSE, 0, doc) : k \in {"def", "class"}, d \in 0..2, doc \in {NoDoc, Free1}}
+            \cup {It(k, d, "none", 0, FALSE, 0, NoDoc) : k \in {"iftrue", "ifmain", "try"}, d \in 0..1}
+            \cup {It("def", 1, deco, 0, FALSE, 0, Free1) : deco \in {"property", "static"}}
+            \cup {It("adef", 0, "wraps", 0, FALSE, 0, Free1)}
+
 \* ---- C08: layouts.  One-line docstrings, every quote prefix, opening/closing variants, leading prose,
 \*      google blocks (body starting with prose/blank = F12), 1-2 groups, 1 or 3 source lines, 0-2 want lines
 C08_DocsFull == {Doc(kind, q, opn, cls, lead, nblk, inlead, nsrc, nwant) :
